@@ -123,6 +123,8 @@ func checkC15(p *Program, r *Result) {
 		checkRawReads(p, r, fn)
 		checkReadCounts(p, r, fn)
 	}
+	r.rule("C15.t", "a byte source is only asked whether it can seek, never what kind of object it is or how much it holds", 1)
+	checkSourceTypeTests(p, r, "C15.t", fns)
 }
 
 // checkRawReads implements C15.a for one function.
